@@ -146,7 +146,7 @@ def gen(rng: Rng, tier, i):
             "dtype": rng.pick(["float32", "float32", "float64", "uint16", "int32", "uint8"]),
             # intensity scale 2**e (exact in binary floating point): the centre of mass is scale-free
             "scale_e": rng.fork("scale").pick([0, 0, 0, 0, -70, -50, -30, -12, -3, 7, 24, 40, 60]),
-            "count_mul": rng.fork("scale").pick([1, 1, 1, 37, 4096, 1 << 19]),
+            "count_mul": rng.fork("count_mul").pick([1, 1, 1, 37, 4096, 1 << 19]),
             # memory layout of the 4-D array, calibration of the dataset (results stay in pixels)
             "layout": rng.fork("layout").pick(["C", "C", "C", "F", "strided", "swapped"]),
             "calib": rng.fork("calib").pick(["unit", "unit", "scaled"]),
